@@ -103,4 +103,19 @@ REG = {
          "+ 64 eps max|x| max|f|. Executions needing more than 3e6 evaluations are abandoned (counted in the evidence); executions with "
          "more than 4000 evaluations are validated without their individual Panel events.",
     technique="TLA+ frame machine of the adaptive recursion (TLC exhaustive over bisection trees) + exact-rational panel identity + trace validation of recorded executions"),
+ "C05": dict(
+    engine="spec/Elim.tla, MC_Elim.tla (2 cfgs), Trace_Elim.tla, LinAlg.tla; harness/c05.cpp",
+    design_ref="DESIGN.md §4.5",
+    text="Elim.tla computes the determinant by fraction-free elimination with row exchange and the inverse as adjugate/determinant in "
+         "exact integer arithmetic. TLC checks the determinant laws of the statement (multiplicative, transpose-invariant, sign change "
+         "under a row swap, product of the diagonal for triangular matrices, M adj(M) = det(M) I) on every 2x2 matrix over -2..2, every "
+         "3x3 matrix over -1..1 and ten structured families of sizes 1..7 (dense, permutation, signed permutation, zero leading minors, "
+         "a pivot of 1 against entries ~2e4, triangular, diagonal, symmetric, rank deficient) and exports each matrix with exact "
+         "determinant and adjugate. The replayer runs Determinant, Invertible and Inverse of the real library on each matrix, plain, "
+         "under power-of-two row/column gradings (condition to ~1e8) and under non-dyadic scalings, and Trace_Elim accepts a case only "
+         "if Invertible <=> exact det # 0, Inverse returns exactly for the invertible ones (else exit with diagnostic), and the "
+         "quantised errors of determinant, inverse and both residuals are within 64 n kappa eps (kappa from the exact inverse).",
+    note="Entries are integers times scalings; matrices with general real entries are reached only through those scalings. Exactly "
+         "singular matrices are not combined with non-dyadic scalings (rounding makes them regular). Non-square inputs are covered by C10.",
+    technique="exact integer elimination in TLA+ (laws checked by TLC), export of matrices with exact determinant/adjugate, replay through the real Inverse/Determinant with trace-validated acceptance"),
 }
